@@ -26,7 +26,10 @@ RULE = ("JSON documents shaped like version-1 and version-2 certificates, up to 
 RULE_ADDED = (
               'Also: hex fields cut / padded / replaced to 1..1000 bytes; names with non-ASCII '
               'characters, NUL and lone surrogates; elements carrying the reserved root name; a '
-              'third of the shards under python -O ')
+              'third of the shards under python -O '
+              ' '
+              'Round 8: documents whose one-line size sits just below a power of two / ten (1 K'
+              'iB .. 4 MiB) so that the saved, indented form sits above it. ')
 RULE = RULE + " " + RULE_ADDED.strip()
 ASSUMPTIONS = [
     "any exception out of from_jsonfile counts as 'reports an error' (the admin tools turn "
@@ -357,7 +360,7 @@ def run_shard(spec, acc):
     env.setup()
     from admin.certificate import HSMCertificateRoot, HSMCertificateV2ElementX509
     rng = random.Random(spec["seed"])
-    tmpdir = tempfile.mkdtemp(prefix="pv-c16-")
+    tmpdir = env.mkdtemp("c16", spec.get("shard", spec.get("seed", 0)) % 2 == 1)
     steps = Steps()
     steps.start()
     try:
@@ -451,7 +454,7 @@ def run_case(acc, steps, cseed, tmpdir, HSMCertificateRoot, X509):
 def replay(case, acc):
     env.setup()
     from admin.certificate import HSMCertificateRoot, HSMCertificateV2ElementX509
-    tmpdir = tempfile.mkdtemp(prefix="pv-c16-")
+    tmpdir = env.mkdtemp("c16")
     steps = Steps()
     steps.start()
     try:
